@@ -2,9 +2,9 @@ package chaingen
 
 import (
 	"bytes"
-	"os"
 	"errors"
 	"math/rand/v2"
+	"os"
 	"regexp"
 	"time"
 
@@ -49,19 +49,19 @@ type bctx struct {
 	median time.Time
 	rng    *rand.Rand
 
-	usedSC map[types.SiacoinOutputID]bool
-	usedSF map[types.SiafundOutputID]bool
+	usedSC    map[types.SiacoinOutputID]bool
+	usedSF    map[types.SiafundOutputID]bool
 	fcTouched map[types.FileContractID]string // "revised" | "resolved"
-	curV1  map[types.FileContractID]types.FileContract
-	curV2  map[types.FileContractID]types.V2FileContract
+	curV1     map[types.FileContractID]types.FileContract
+	curV2     map[types.FileContractID]types.V2FileContract
 
-	v1 []types.Transaction
-	v2 []types.V2Transaction
+	v1    []types.Transaction
+	v2    []types.V2Transaction
 	kinds []string
 
 	// outputs created in this block that later transactions may spend
-	newSC []ephSC
-	newSF []ephSF
+	newSC    []ephSC
+	newSF    []ephSF
 	forceEph bool
 }
 
@@ -234,10 +234,10 @@ func (x *bctx) fundV2(need types.Currency, maxInputs int) ([]scIn, types.Currenc
 func (c *Chain) SignV1(cs consensus.State, txn *types.Transaction, partial func(parent types.Hash256) bool) {
 	txn.Signatures = nil
 	type need struct {
-		parent types.Hash256
-		uc     types.UnlockConditions
+		parent  types.Hash256
+		uc      types.UnlockConditions
 		signers []int
-		keys   []types.PrivateKey
+		keys    []types.PrivateKey
 	}
 	var needs []need
 	addUC := func(parent types.Hash256, uc types.UnlockConditions) {
